@@ -212,6 +212,19 @@ def run(ctx):
             # the store
             stores = [(blk, st) for blk, i, st in ctx.find_field_assigns(f, slot, 1)
                       if any(ctx._sat(d, opt_atom(name, "True")) for d in ctx.pc_strs(f, blk))]
+            if not stores:
+                # the store written inside a closure handed to a combinator on the parsed value
+                # (`T::from_meta(mi).map(|v| self.slot = v)`): counted at the place the closure is built
+                sites = ctx.closure_sites(f)
+                caps = {}
+                for b_, i_, st_ in f.stmts():
+                    if st_["k"] == "assign" and st_["r"]["k"] == "aggregate" and st_["r"].get("agg") == "closure":
+                        caps[st_["r"]["closure"]] = [ctx.expr(f, o_) for o_ in st_["r"]["ops"]]
+                for c in ctx.closures_of(f):
+                    writes_slot = bool(ctx.find_field_assigns(c, slot)) or \
+                        (("self.%s" % slot) in caps.get(c.key, []) and any(st_["k"] == "assign" and st_["p"]["proj"] and st_["p"]["proj"][0]["k"] == "deref" for _, _, st_ in c.stmts()))
+                    if writes_slot and c.key in sites and any(ctx._sat(d, opt_atom(name, "True")) for d in ctx.pc_strs(f, sites[c.key])):
+                        stores.append((sites[c.key], None))
             ctx.ob("C10.G.option-stored", f.key, "option `%s` -> self.%s" % (name, slot), len(stores) >= 1, "%d stores under is_ident(\"%s\")" % (len(stores), name))
             if guard:
                 for blk, st in stores:
